@@ -4,6 +4,7 @@ Iteration over python-level constant tuples is unrolled exactly (their length is
 the working tree).  Iteration over symbolic containers uses an abstract enumeration: a fresh
 length n and a fresh bijection index<->element, i.e. *some* fixed order (no particular one)."""
 import ast
+import os
 
 from . import ty as T
 from .core import SV, PyV, ExcVal, Unsupported
@@ -150,7 +151,7 @@ def check_invs(ex, invs, st, label, lid, extra_env):
                      {"kind": "loop-invariant", "function": ex.current_contract.target})
         # invariants are proved in the order they are listed; an earlier one is a lemma for the later ones
         # (proving A, then A => B, proves A and B)
-        if g != "true":
+        if g != "true" and os.environ.get("PYVC_CHAIN") == "1":   # off by default: the extra hypotheses slow other proofs down
             st = st.assume(g)
             ps = st.copy(env=env, spec=True, old=pre)
 
